@@ -18,8 +18,22 @@ their defaults; whether `subscribe` is an async generator (body runs at the firs
 `__anext__`) or a plain method (body would run at the call).
 
 Ignored (untracked): docstrings, comments, type annotations, the exception class and
-message of a `raise`, calls rooted at `logger`/`logging`, `assert` without a tracked
-attribute, `del` of plain names, the read-only properties, `__repr__`.
+message of a `raise`, `logger.<level>(...)` / `logging.<level>(...)` whose arguments
+contain no call / walrus / await / yield and mention no local, parameter or `self`
+(the shared rule for ignored positions), the read-only properties, `__repr__`.
+
+Refused (fail closed), besides every unknown construct in a tracked position: `assert`
+and `del` in a translated method; class bases other than `Generic[...]`; any class-body
+statement that is not a method, a plain annotation or the docstring; decorators (except
+`@property` on the three read-only properties); `__aenter__` other than `return self`,
+`__aexit__` other than `await self.aclose()` / `await self.close()`; `__bool__`,
+`__len__`, `__eq__`, `__hash__`, `__enter__`, `__exit__`, `__aiter__`, ... ; any further
+method of either class; module-level statements other than the expected imports, the
+two sentinel classes (`class _X(enum.Enum): X = object()`), `Name = TypeVar(..)` / `logger = logging.getLogger(..)` /
+call-free assignments that do not rebind a translated name, and TypeAlias annotations;
+`Queue` not spelled `asyncio.Queue`, or with arguments (a bounded queue makes `put`
+suspend).  The parameter defaults are emitted and `C08_tie_subscribe_defaults`,
+`C08_tie_broker_subscribe_default` depend on them.
 
 Anything else in a tracked position raises TranslateError (= a broken tie obligation).
 """
@@ -44,6 +58,7 @@ ATTRS = {
 LIST_ATTRS = {'_cache', '_queues'}
 SENTINELS = {'_END': 'EEnd', '_START': 'EStart'}
 IGNORED_CALL_ROOTS = {'logger', 'logging'}
+LOG_LEVELS = {'debug', 'info', 'warning', 'error', 'exception', 'critical'}
 
 ITEM_METHODS = ['__init__', 'publish', 'clear', 'latest', 'subscribe', 'aclose', '_enumerate']
 ITEM_READONLY = {'cache', 'closed', 'n_subscriptions', '__repr__', '__aenter__', '__aexit__'}
@@ -170,7 +185,7 @@ class ItemTr:
             base = f.value if isinstance(f, ast.Subscript) else f
             if isinstance(base, ast.Name) and base.id == 'list' and not e.args:
                 return 'ENewList'
-            if norm(base) in ('asyncio.Queue', 'Queue') and not e.args:
+            if norm(base) == 'asyncio.Queue' and not e.args:
                 self.new_queues += 1
                 return 'ENewQueue'
             self.err(e, 'call not understood')
@@ -223,8 +238,20 @@ class ItemTr:
         if name_node.id not in self.locals or name_node.id in SENTINELS or name_node.id == 'self':
             self.err(name_node, 'not a local variable')
 
-    def mentions_tracked(self, node) -> bool:
-        return any(is_self_attr(n) for n in ast.walk(node))
+    def ignorable_logger_call(self, call) -> bool:
+        """The shared rule for an IGNORED statement: `logger.<level>(...)` / `logging.<level>(...)` whose
+        arguments contain no Call, NamedExpr, Await, Yield and mention no local, parameter or `self`."""
+        f = call.func
+        if not (isinstance(f, ast.Attribute) and isinstance(f.value, ast.Name) and f.value.id in IGNORED_CALL_ROOTS
+                and f.attr in LOG_LEVELS):
+            return False
+        for a in list(call.args) + [k.value for k in call.keywords]:
+            for n in ast.walk(a):
+                if isinstance(n, (ast.Call, ast.NamedExpr, ast.Await, ast.Yield, ast.YieldFrom, ast.Lambda)):
+                    return False
+                if isinstance(n, ast.Name) and (n.id == 'self' or n.id in self.locals):
+                    return False
+        return True
 
     def list_method(self, call):
         """self._<list>.append(e) / .remove(e) / .clear()"""
@@ -262,20 +289,13 @@ class ItemTr:
                 lm = self.list_method(v)
                 if lm:
                     return lm
-                root = v.func
-                while isinstance(root, (ast.Attribute, ast.Call)):
-                    root = root.value if isinstance(root, ast.Attribute) else root.func
-                if isinstance(root, ast.Name) and root.id in IGNORED_CALL_ROOTS and not self.mentions_tracked(v):
+                if self.ignorable_logger_call(v):
                     return None
             self.err(st, 'expression statement not understood')
         if isinstance(st, ast.Assert):
-            if self.mentions_tracked(st):
-                self.err(st, 'assert mentions a tracked attribute')
-            return None
+            self.err(st, 'assert in a translated method (it can raise, and its test can have effects): not ignorable')
         if isinstance(st, ast.Delete):
-            if all(isinstance(t, ast.Name) for t in st.targets):
-                return None
-            self.err(st, 'del of something that is not a plain name')
+            self.err(st, 'del in a translated method')
         if isinstance(st, ast.Pass):
             return 'SSkip'
         if isinstance(st, ast.Assign):
@@ -364,24 +384,126 @@ def default_expr(tr: ItemTr, d) -> str:
     return 'None' if d is None else f'(Some {tr.expr(d)})'
 
 
-def translate_item(tree) -> dict:
-    cls = find_class(tree, 'PubSubItem')
+
+FORBIDDEN_DUNDERS = ('__bool__', '__len__', '__eq__', '__ne__', '__hash__', '__getattr__', '__setattr__',
+                     '__getattribute__', '__delattr__', '__enter__', '__exit__', '__post_init__', '__new__',
+                     '__init_subclass__', '__class_getitem__', '__aiter__', '__anext__', '__iter__', '__next__',
+                     '__call__', '__del__', '__getitem__', '__setitem__', '__contains__', '__await__')
+
+
+def check_class_shape(cls, bases: list[str], where: str):
+    """Fail closed on anything in the class statement that could change what the methods mean."""
+    if [norm(b) for b in cls.bases] != bases or cls.keywords:
+        raise TranslateError(f'{where}: class bases/keywords are {[norm(b) for b in cls.bases]}, expected {bases}')
+    if cls.decorator_list:
+        raise TranslateError(f'{where}: class is decorated')
+    for n in strip_doc(cls.body):
+        if isinstance(n, (ast.FunctionDef, ast.AsyncFunctionDef)):
+            continue
+        if isinstance(n, ast.AnnAssign) and n.value is None and isinstance(n.target, ast.Name):
+            continue                    # a plain annotation
+        raise TranslateError(f'{where}:{n.lineno}: class-body statement `{norm(n)[:60]}` (only methods, plain '
+                             f'annotations and the docstring are accepted)')
     ms = methods_of(cls)
+    for d in FORBIDDEN_DUNDERS:
+        if d in ms:
+            raise TranslateError(f'{where}.{d} defined (changes truthiness / equality / attribute access / protocol)')
+    return ms
+
+
+def check_aenter_aexit(ms, where: str, close_call: str):
+    """`__aenter__` is pinned to `return self`, `__aexit__` to `await self.<close>()`."""
+    for name, want, kind in (('__aenter__', ['return self'], ast.AsyncFunctionDef),
+                             ('__aexit__', [close_call], ast.AsyncFunctionDef)):
+        if name not in ms:
+            continue
+        fn = ms[name]
+        if not isinstance(fn, kind) or fn.decorator_list:
+            raise TranslateError(f'{where}.{name}: not a plain `async def`')
+        body = []
+        for st in strip_doc(fn.body):
+            if isinstance(st, ast.Delete) and all(isinstance(t, ast.Name) and t.id != 'self' for t in st.targets):
+                continue                # `del exc_type, exc_value, traceback`
+            body.append(norm(st))
+        if body != want:
+            raise TranslateError(f'{where}.{name}: body is {body}, expected {want}')
+
+
+def check_module_shape(tree, where: str, classes: set[str], imports: set[str], reserved: set[str]):
+    """Module level: the expected imports, the expected classes, `Name = <call-free expression | TypeVar(..)>`
+    and TypeAlias annotations.  Nothing that could rebind or monkeypatch a translated name."""
+    seen_imports = set()
+    for n in tree.body:
+        if isinstance(n, ast.Expr) and isinstance(n.value, ast.Constant) and isinstance(n.value.value, str):
+            continue
+        if isinstance(n, (ast.Import, ast.ImportFrom)):
+            for a in n.names:
+                bound = (a.asname or a.name).split('.')[0]
+                src = norm(n)
+                if a.asname is not None and a.asname != a.name:
+                    if bound in reserved:
+                        raise TranslateError(f'{where}:{n.lineno}: `{src}` rebinds `{bound}`')
+                key = f'{"." * n.level}{n.module or ""}:{a.name}' if isinstance(n, ast.ImportFrom) else f':{a.name}'
+                if bound in reserved and key not in imports:
+                    raise TranslateError(f'{where}:{n.lineno}: `{src}` binds `{bound}` from an unexpected module')
+                if a.asname is None or a.asname == a.name:
+                    seen_imports.add(f'{"." * n.level}{n.module or ""}:{a.name}' if isinstance(n, ast.ImportFrom) else f':{a.name}')
+            continue
+        if isinstance(n, ast.ClassDef):
+            if n.name not in classes:
+                raise TranslateError(f'{where}:{n.lineno}: unexpected class {n.name}')
+            continue
+        if isinstance(n, ast.Assign) and len(n.targets) == 1 and isinstance(n.targets[0], ast.Name):
+            t = n.targets[0].id
+            if norm(n) in ('_START = _Start.START', '_END = _End.END') and where == 'item.py':
+                continue                # counted (exactly once each) by translate_item
+            if t in reserved:
+                raise TranslateError(f'{where}:{n.lineno}: module-level rebinding of `{t}`')
+            calls = [c for c in ast.walk(n.value) if isinstance(c, ast.Call)]
+            if calls and not (isinstance(n.value, ast.Call) and norm(n.value.func) in ('TypeVar', 'logging.getLogger', 'getLogger')
+                              and len(calls) == 1):
+                raise TranslateError(f'{where}:{n.lineno}: module-level `{norm(n)[:60]}` contains a call')
+            continue
+        if isinstance(n, ast.AnnAssign) and isinstance(n.target, ast.Name) and norm(n.annotation) == 'TypeAlias' \
+                and n.target.id not in reserved and not any(isinstance(c, ast.Call) for c in ast.walk(n.value)):
+            continue
+        raise TranslateError(f'{where}:{n.lineno}: module-level statement `{norm(n)[:60]}` not accepted')
+    for need in imports:
+        if need not in seen_imports:
+            raise TranslateError(f'{where}: import `{need}` not found')
+
+
+def check_sentinel_class(tree, cname: str, member: str):
+    cls = find_class(tree, cname)
+    body = [norm(x) for x in strip_doc(cls.body)]
+    if [norm(b) for b in cls.bases] != ['enum.Enum'] or body != [f'{member} = object()'] or cls.decorator_list:
+        raise TranslateError(f'item.py: sentinel class {cname} is not `class {cname}(enum.Enum): {member} = object()`')
+
+
+def translate_item(tree) -> dict:
+    check_module_shape(tree, 'item.py', {'_Start', '_End', 'PubSubItem'}, {':asyncio', ':enum'},
+                       {'PubSubItem', '_START', '_END', '_Start', '_End', 'asyncio', 'enum', 'list', 'object'})
+    check_sentinel_class(tree, '_Start', 'START')
+    check_sentinel_class(tree, '_End', 'END')
+    cls = find_class(tree, 'PubSubItem')
+    ms = check_class_shape(cls, ['Generic[_Item]'], 'PubSubItem')
+    check_aenter_aexit(ms, 'PubSubItem', 'await self.aclose()')
     res = {}
     # module-level sentinels must be what the names say
-    mod_assign = {norm(n) for n in tree.body if isinstance(n, ast.Assign)}
+    mod_assign = [norm(n) for n in tree.body if isinstance(n, ast.Assign)]
     for need in ('_START = _Start.START', '_END = _End.END'):
-        if need not in mod_assign:
-            raise TranslateError(f'item.py: `{need}` not found at module level')
-    for dunder in ('__bool__', '__len__', '__getattr__', '__setattr__', '__getattribute__'):
-        if dunder in ms:
-            raise TranslateError(f'PubSubItem.{dunder} defined (changes truthiness / attribute access)')
+        if mod_assign.count(need) != 1:
+            raise TranslateError(f'item.py: `{need}` not found exactly once at module level')
     for name in ITEM_METHODS:
         if name not in ms:
             raise TranslateError(f'PubSubItem.{name} not found')
     for name, fn in ms.items():
         if name in ITEM_METHODS:
             continue
+        if name not in ITEM_READONLY:
+            raise TranslateError(f'PubSubItem.{name}: method not modelled')
+        if name not in ('cache', 'closed', 'n_subscriptions') and name not in ('__aenter__', '__aexit__') and fn.decorator_list:
+            raise TranslateError(f'PubSubItem.{name}: decorated')
         # every other method must not write a tracked attribute or call a mutating method
         for n in ast.walk(fn):
             if is_self_attr(n) and isinstance(n.ctx, (ast.Store, ast.Del)):
@@ -390,10 +512,6 @@ def translate_item(tree) -> dict:
                 raise TranslateError(f'PubSubItem.{name}: calls a method of self.{n.func.value.attr} (method not modelled)')
             if isinstance(n, ast.Call) and is_self_attr(n.func) and n.func.attr not in ('aclose',):
                 raise TranslateError(f'PubSubItem.{name}: calls self.{n.func.attr} (method not modelled)')
-        if name == '__aexit__':
-            body = [norm(s) for s in strip_doc(fn.body) if not isinstance(s, ast.Delete)]
-            if body != ['await self.aclose()']:
-                raise TranslateError(f'PubSubItem.__aexit__: body is {body}, expected `await self.aclose()`')
         if name in ('cache', 'closed', 'n_subscriptions'):
             if [norm(d) for d in fn.decorator_list] != ['property']:
                 raise TranslateError(f'PubSubItem.{name}: not a read-only property')
@@ -463,8 +581,6 @@ class BrokerTr:
     def stmt(self, st) -> str | None:
         if isinstance(st, ast.Expr) and isinstance(st.value, ast.Constant) and isinstance(st.value.value, str):
             return None
-        if isinstance(st, ast.Delete) and all(isinstance(t, ast.Name) for t in st.targets):
-            return None
         if isinstance(st, ast.Return) and st.value is not None:
             return f'BReturnCall {self.call(st.value)}'
         if isinstance(st, ast.Expr) and isinstance(st.value, ast.Await):
@@ -491,8 +607,11 @@ class BrokerTr:
 
 
 def translate_broker(tree, item_init_params) -> dict:
+    check_module_shape(tree, 'broker.py', {'PubSub'}, {'collections:defaultdict', '.item:PubSubItem'},
+                       {'PubSub', 'PubSubItem', 'defaultdict'})
     cls = find_class(tree, 'PubSub')
-    ms = methods_of(cls)
+    ms = check_class_shape(cls, ['Generic[_KT, _VT]'], 'PubSub')
+    check_aenter_aexit(ms, 'PubSub', 'await self.close()')
     res = {}
     for name in BROKER_METHODS + ['__init__']:
         if name not in ms:
@@ -507,21 +626,15 @@ def translate_broker(tree, item_init_params) -> dict:
           and len(v.args) == 1 and not v.keywords and norm(v.args[0]) == 'PubSubItem')
     if not ok:
         raise TranslateError(f'PubSub.__init__: expected `self._queue = defaultdict[...](PubSubItem)`, got `{init[0]}`')
-    imports = [norm(n) for n in tree.body if isinstance(n, ast.ImportFrom)]
-    if 'from .item import PubSubItem' not in imports:
-        raise TranslateError('broker.py: PubSubItem is not imported from .item')
+    if ms['__init__'].decorator_list or [a.arg for a in ms['__init__'].args.args] != ['self'] \
+            or ms['__init__'].args.kwonlyargs or ms['__init__'].args.vararg or ms['__init__'].args.kwarg:
+        raise TranslateError('PubSub.__init__: signature is not `(self)`')
     if any(d is None for _, d in item_init_params):
         raise TranslateError('PubSubItem.__init__ has a parameter without default: defaultdict factory would fail')
-    known = set(BROKER_METHODS) | {'__init__', '__aenter__', '__aexit__'}
+    known = set(BROKER_METHODS) | {'__init__', '__aenter__', '__aexit__'}     # the last two are pinned above
     for name, fn in ms.items():
         if name not in known:
-            for n in ast.walk(fn):
-                if is_self_attr(n, {'_queue'}):
-                    raise TranslateError(f'PubSub.{name}: touches self._queue (method not modelled)')
-        if name == '__aexit__':
-            body = [norm(s) for s in strip_doc(fn.body) if not isinstance(s, ast.Delete)]
-            if body != ['await self.close()']:
-                raise TranslateError(f'PubSub.__aexit__: body is {body}, expected `await self.close()`')
+            raise TranslateError(f'PubSub.{name}: method not modelled')
     kinds = {'subscribe': ast.FunctionDef, 'publish': ast.AsyncFunctionDef, 'latest': ast.FunctionDef,
              'end': ast.AsyncFunctionDef, 'close': ast.AsyncFunctionDef}
     for name in BROKER_METHODS:
